@@ -147,6 +147,9 @@ func (s *Sched) Tick() int64 {
 	return s.Clock
 }
 
+// Goid returns the id of the calling goroutine.
+func Goid() int64 { return goid() }
+
 func goid() int64 {
 	var buf [64]byte
 	n := runtime.Stack(buf[:], false)
